@@ -925,6 +925,11 @@ def systematic_programs(max_level=2):
             return [('if', [(('bin', '<', ('int', 1), ('int', 2)), [P(tag + "t")] + body)], [P(tag + "e")])]
         if kind == 'elsefalse':
             return [('if', [(('not', ('bool', True)), [P(tag + "t")])], [P(tag + "e")] + body)]
+        # empty branches: an `else` (or a then-branch) without statements still has its frame and its jumps
+        if kind == 'emptyelse':
+            return [('if', [(T, [P(tag + "t")] + body)], [])]
+        if kind == 'emptythen':
+            return [('if', [(T, [])], [P(tag + "e")] + body)]
         if kind == 'while':
             return [('while', T, [P(tag + "w")] + body + [P(tag + "x")])]
         if kind == 'wcount':
@@ -945,7 +950,7 @@ def systematic_programs(max_level=2):
         raise ValueError(kind)
 
     KINDS = ['if', 'ifelse', 'elseif', 'else', 'while', 'wcount', 'from', 'fromnamed', 'fromcollide',
-             'iftrue', 'ifcmp', 'elsefalse']
+             'iftrue', 'ifcmp', 'elsefalse', 'emptyelse', 'emptythen']
     LOOPS = ('while', 'wcount', 'from', 'fromnamed', 'fromcollide')
     out = []
 
